@@ -178,6 +178,21 @@ def gen_eloss_cases(ctx, n):
             var = mean * mean * r.choice([logu(r, -2, 1.5), 1.0, 0.25])
             cases.append(("gammad", [mean, var], nz(gen_u(r, 80, extremes=False))))
         else:
+            if c in (2, 3):
+                # aimed at the heavy-particle gamma / Gaussian models: mean loss >= 10 Tmax, Tmax below the cut,
+                # step chosen so that mean^2 / (4 Bohr variance) straddles 1
+                energy = logu(r, -2, 1.5)
+                g = 1 + energy / MMU
+                b2 = 1 - 1 / (g * g)
+                mr = ME / MMU
+                tmax = 2 * ME * b2 * g * g / (1 + mr * (2 * g + mr))
+                cut = max(1e-3, tmax * r.choice([1.0, 1.5, 10.0]))
+                mean_loss = tmax * r.choice([10.0, 10.0 * (1 + logu(r, -9, -1)), logu(r, 1, 3)])
+                ratio = logu(r, -1.5, 1.5)
+                step = mean_loss ** 2 / (4 * ratio * 2.764 * min(cut, tmax) * (1 / b2 - 0.5))
+                if mean_loss > 1e-5 and 1e-9 < step < 1e4:
+                    cases.append(("eloss", [1, energy, mean_loss, step, cut], nz(gen_u(r, 400, extremes=False))))
+                    continue
             pid = r.choice([0, 1, 1])
             energy = logu(r, -3, 2) if pid == 0 else logu(r, -2, 4)
             mean_loss = r.choice([logu(r, -6, 0), energy * logu(r, -4, -0.5), 1e-5 * (1 + r.choice([-1, 1]) * logu(r, -12, -1))])
